@@ -292,7 +292,7 @@ class C14(World):
     ASSUMPTIONS = ["curves are separated by >= 0.4 so merge_vertices cannot fuse them", "Arc.length is checked for invariance only (see DESIGN)"]
 
     def swarm(self, rng):
-        return {"drawing": rng.choice(DRAWINGS), "n_present": rng.choice([2, 2, 3, 4]), "weights": swarm_weights(rng, OPS, keep_p=0.7, always=("read",)), "n_ops": rng.choice([0, 1, 2, 3, 5]),
+        return {"drawing": rng.choice(DRAWINGS), "n_present": rng.choice([2, 2, 3, 4]), "weights": swarm_weights(rng, OPS, keep_p=0.7, always=("read",)), "n_ops": rng.choice([0, 1, 2, 3, 5] if self.TIER != "thorough" else [1, 2, 3, 5, 8, 12]),
                 "reads": sorted(rng.sample(READS, rng.choice([3, 6, len(READS)])))}
 
     def generate(self, rng, cfg):
